@@ -256,6 +256,10 @@ pub struct NetProgram {
     /// completion (gate "in", connected to flat gate 0 of module 0)
     #[serde(default)]
     pub blocks: Vec<u8>,
+    /// the application an error-free `run()` hands back is put into a second runtime (same options) and run again:
+    /// a complete second life cycle (C12)
+    #[serde(default)]
+    pub rerun: bool,
 }
 
 // ---------------------------------------------------------------- trace
@@ -988,6 +992,8 @@ pub struct NetResult {
     pub block_log: Vec<(u64, u8, u32)>,
     /// absolute time of every injected message (program order; u64::MAX = not injected)
     pub injected_at: Vec<u64>,
+    /// index of the first trace record of the second simulation of a re-run application
+    pub rerun_from: Option<usize>,
 }
 
 pub fn sanitize_order(prog: &NetProgram) -> Vec<usize> {
@@ -1141,6 +1147,7 @@ pub fn run_net(prog: &NetProgram, opts: &RunOpts) -> NetResult {
     crate::asy::set_timers_elsewhere(prog.timers_elsewhere);
 
     let injected_at: RefCell<Vec<u64>> = RefCell::new(Vec::new());
+    let rerun_from: std::cell::Cell<Option<usize>> = std::cell::Cell::new(None);
     let outcome = std::panic::catch_unwind(std::panic::AssertUnwindSafe(|| {
         let mut build = BuildLog::default();
         let mut sim = Sim::new(Inner { fail_end: prog.inner_end_err });
@@ -1411,17 +1418,20 @@ pub fn run_net(prog: &NetProgram, opts: &RunOpts) -> NetResult {
             drop(sim);
             return (build, None, false);
         }
-        let mut b = Builder::seeded(prog.seed).quiet();
-        if prog.n > 0 && prog.t_ns > 0 {
-            b = b.cqueue_options(prog.n, Duration::from_nanos(prog.t_ns));
-        }
-        if prog.max_events > 0 {
-            b = b.max_itr(prog.max_events as usize);
-        }
-        if prog.max_time_ns > 0 {
-            b = b.limit(RuntimeLimit::SimTime(SimTime::from_duration(Duration::from_nanos(prog.max_time_ns))));
-        }
-        let rt = b.build(sim.freeze());
+        let mk_builder = || {
+            let mut b = Builder::seeded(prog.seed).quiet();
+            if prog.n > 0 && prog.t_ns > 0 {
+                b = b.cqueue_options(prog.n, Duration::from_nanos(prog.t_ns));
+            }
+            if prog.max_events > 0 {
+                b = b.max_itr(prog.max_events as usize);
+            }
+            if prog.max_time_ns > 0 {
+                b = b.limit(RuntimeLimit::SimTime(SimTime::from_duration(Duration::from_nanos(prog.max_time_ns))));
+            }
+            b
+        };
+        let rt = mk_builder().build(sim.freeze());
         if prog.end_mode == 2 {
             drop(rt);
             return (build, None, false);
@@ -1473,6 +1483,17 @@ pub fn run_net(prog: &NetProgram, opts: &RunOpts) -> NetResult {
         }
         if prog.late_links.is_empty() {
             let result = rt.run();
+            if prog.rerun {
+                // the application that an error-free run hands back goes through a second, complete simulation
+                return match result {
+                    Ok((app, _, _)) => {
+                        rerun_from.set(Some(CTX.with(|c| c.borrow().as_ref().map_or(0, |c| c.trace.len()))));
+                        let result = mk_builder().build(app).run();
+                        (build, Some(result), true)
+                    }
+                    other => (build, Some(other), true),
+                };
+            }
             return (build, Some(result), true);
         }
         // stepped: pause, let the driver connect more gates, continue
@@ -1567,6 +1588,7 @@ pub fn run_net(prog: &NetProgram, opts: &RunOpts) -> NetResult {
         res.foreign = c.foreign;
         res.block_log = c.block_log;
         res.injected_at = injected_at.into_inner();
+        res.rerun_from = rerun_from.get();
         res.trace = c.trace;
         res.ledger = c.ledger.report();
     }
